@@ -14,8 +14,8 @@ from harness import stmt_wire as SW
 
 META = {
     "id": "C06",
-    "technique": "Coq proof (escape = _escape_string_literal round-trips through a model of the g++ string-literal lexer for every string without a line end, refuted with a raw line end; the emitter's stitching order is sorted by section kind with one setup and one loop, declared-before-use holds under an explicit guard and is refuted for a function that mentions an ultrasonic helper or a later function) + extracted-model correspondence with the real _escape_string_literal / _to_c_expr, with g++'s own lexer, and with the section structure read back from the real emitted text + the compiler as property oracle: every accepted generated script inside the guard is compiled and linked with g++ against the mock core, every generated printable literal is printed by the firmware and compared with the Python value",
-    "level_text": "Theorems C06_* (coq/Props/C06.v) hold for all strings / all sketches of Gallina models (coq/Lang/Escape.v: escape and a lexer of one ordinary C++ string literal incl. line splicing; coq/Lang/Sections.v: the emitter's stitching order with defines/uses per top-level item). The models are run against the real functions and against g++ on generated inputs; the C++ type checker is not modelled - g++ itself decides, on every accepted script of a structured generator (devices x helpers x lists x functions x control flow x printable literals) restricted to the guard of the listed findings.",
+    "technique": "Coq proof (escape = _escape_string_literal round-trips through a model of the g++ string-literal lexer for every string without a line end, refuted with a raw line end; the emitter's stitching order is sorted by section kind with one setup and one loop, declared-before-use of file-scope names holds under an explicit guard and is refuted for a function that mentions an ultrasonic helper or a later function; every assignment in the IR of the statement translator targets a variable visible under C++ block scoping, by induction over the translation incl. promotion and both rewriters, refuted for a setup-local introduced by a mixed tuple assignment) + extracted-model correspondence with the real _escape_string_literal / _to_c_expr, with g++'s own lexer, with the section structure read back from the real emitted text, and of the scoping verdict with g++ + the compiler as property oracle: every accepted generated script inside the guard is compiled and linked with g++ against the mock core, every generated printable literal is printed by the firmware and compared with the Python value",
+    "level_text": "Theorems C06_* (coq/Props/C06.v) hold for all strings / all sketches / all programs of Gallina models (coq/Lang/Escape.v: escape and a lexer of one ordinary C++ string literal incl. line splicing; coq/Lang/Sections.v: the emitter's stitching order with defines/uses per top-level item; coq/Lang/Scope.v: C++ block scoping over the IR of coq/Lang/Transl.v, the model of the statement translator that unit C01_stmt ties to parser.py). The models are run against the real functions and against g++ on generated inputs; the C++ type checker is not modelled - g++ itself decides, on every accepted script of a structured generator (devices x helpers x lists x functions x control flow x printable literals) restricted to the guard of the listed findings.",
     "level_note": "Trusted: Coq kernel, extraction, OCaml driver, g++ 12 -std=gnu++17 and the mock Arduino core as the definition of 'compiles', harness/c06_sections.py (reads top-level items, defined and used names out of the emitted text), harness/c06_gen.py (script generator and the syntactic guard shapes_of). Theorems are about the models; what ties the whole transpiler to the property is the compiler oracle, a search, not a proof.",
     "design_ref": "DESIGN.md section 4 C06",
 }
@@ -194,7 +194,9 @@ def gen_raw_literal(rng, ascii_only):
         elif q < 0.6:
             out.append(rng.choice(OCT if ascii_only else OCT_LOW))
         elif q < 0.7:
-            out.append(rng.choice(HEX if ascii_only else HEX_LOW) + rng.choice(["", " ", "g", "-"]))
+            # in a non-ASCII body a hex escape is always closed by a non-hex character, so that it cannot grow to a value
+            # >= 0x80 (one byte in g++, but indistinguishable from a verbatim character in the model's code-point list)
+            out.append(rng.choice(HEX if ascii_only else HEX_LOW) + rng.choice(["", " ", "g", "-"] if ascii_only else [" ", "g", "-"]))
         elif q < 0.78:
             out.append(rng.choice(["??/", "??=", "??(", "?\\?", "??/n"]))
         elif q < 0.84:
@@ -255,6 +257,7 @@ def part_lexer(ctx, dist):
         for k, m in grp:
             n_eval += 1
             body, ascii_only = bodies[k]
+            ascii_only = body.isascii()
             content = m[1]
             want = list(content) if ascii_only else None
             if not ascii_only:
@@ -284,7 +287,7 @@ def literal_script(rng, items):
     pre.append("kx = 7")
     for cid, s, cx in items:
         lit = G.py_literal(rng, s)
-        body.append(f'mon.write("##case {cid}")')
+        body.append(f'mon.write("@@c06case {cid}")')
         if cx == "write":
             body.append(f"mon.write({lit})")
         elif cx == "var":
@@ -341,7 +344,7 @@ def part_literals(ctx, dist, strings):
                 else:
                     nxt += [b[:len(b) // 2], b[len(b) // 2:]]
                 continue
-            cases = fw.split_cases(x["events"])
+            cases = fw.split_cases(x["events"], marker="S @@c06case ")
             for cid, sv, cx in b:
                 ev = cases.get(str(cid))
                 lines = [e for e in (ev or []) if e.startswith("S ") or e == "S"]
@@ -612,7 +615,7 @@ def run(ctx: C.Ctx):
             ctx.known(f"{f['id']}: {f['what']}")
         # every witness must be outside the executable guard (otherwise the guard would not protect the search)
         w = f["witness"]["script"]
-        if not G.shapes_of(w) and all(in_guard_string(s) for s in G.string_constants(w)):
+        if not G.shapes_of(w) and not f["witness"].get("generator_invariant"):
             ctx.disagree("listed finding's witness is inside the executable guard", {"script": w}, "outside", "inside")
 
     ctx.coverage.update({
@@ -622,15 +625,17 @@ def run(ctx: C.Ctx):
                 "B: C++ literal bodies built from plain characters, simple/octal/hex escapes, trigraph-like sequences, line splices, non-ASCII: model lexer vs the bytes g++ stores. "
                 "C: printable strings in 7 script contexts (write, variable, list element, function argument, f-string, concatenation, +=) transpiled, compiled, run; the printed line must be the Python value. "
                 "D: seeded structured scripts (c06_gen.gen_script: device kinds forced in rotation before the loop / hoistable kinds at the top of the loop body, globals, lists, user functions, if/elif/else, for, while, try, tuple assignment, f-strings, device calls with literal and run-time arguments) filtered by the syntactic guard shapes_of; every accepted one is compiled+linked by g++ (oracle) and its top-level structure is read back and compared with the model's stitch order / declared-before-use verdict. "
+                "F: statement-fragment programs (harness/progen.py feature sets + 34 scoping boundary templates: all-new / mixed / all-old tuple assignments at every level, names first bound in branches and loops, for variables re-bound after the loop) through the extracted Lang.Transl + Lang.Scope and through the real transpiler + g++: the theorem's conclusion is re-checked on the extracted model, and a target the model finds invisible must make g++ fail with 'not declared'. "
                 "distinct non-trivial = strings that need escaping + distinct (section-kind multiset, helper set) signatures of compiled scripts",
         "samples": samples[:4],
         "distribution": {k: v for k, v in sorted(dist.items(), key=lambda kv: str(kv[0]))},
-        "guard": "strings: str.isprintable() (theorem guard: no LF/CR). scripts: c06_gen.shapes_of(script) is empty - no user function that calls measure_distance() or lcd.animate(), no call of a function defined later, no '**', no 'except <Name>', no '+' of two string literals, no C++ keyword / Arduino core name as a Python identifier; one type class per variable name; list.append/remove arguments of the element type (generator invariants)",
+        "guard": "strings: str.isprintable() (theorem guard: no LF/CR). scripts: c06_gen.shapes_of(script) is empty - no user function that calls measure_distance() or lcd.animate(), no call of a function defined later, no '**', no 'except <Name>', no '+' of two string literals, no C++ keyword / Arduino core name as a Python identifier, no top-level tuple assignment mixing new and old names, no for variable mentioned after its loop; plus generator invariants: type-correct Python, one type class per variable name, list.append/remove arguments of the element type. Scoping theorem: setup() has no top-level local declaration (for loop()), targets of augmented assignments not checked",
         "unmodelled": ["the C++ type checker (template deduction in the list helpers, String overloads, implicit conversions): decided by g++ only",
                        "AVR specifics: <cstring> in the len helper, 16-bit int, PROGMEM; the mock is a hosted g++ 12 with the mock core",
                        "universal character names, GNU escapes, numeric escapes > 255, -trigraphs / -std=c++NN modes (the lexer model answers None)",
                        "scripts rejected by the transpiler (not the property's business); lines silently dropped by the parser (C07)",
-                       "which names an item defines/uses is read from the emitted text by harness/c06_sections.py, not by a C++ parser"],
+                       "which names an item defines/uses is read from the emitted text by harness/c06_sections.py, not by a C++ parser",
+                       "scoping theorem: expression reads, redeclaration within one block, the __tmp_assign_k temporaries, user functions, lists and devices are outside Lang/Transl.v; Transl itself is tied to parser.py by unit C01_stmt (IR equality on generated programs), not re-run here"],
         "trusted_base": C.COMMON_TRUSTED + ["g++ 12 -std=gnu++17 -O0 and mock/ (Arduino.h, Servo.h, LiquidCrystal*.h, Wire.h, mock_core.cpp) as the definition of 'compiles against the Arduino core'",
                                             "harness/c06_sections.py (top-level item splitter, defined/used names), harness/c06_gen.py (generator; shapes_of = executable guard)",
                                             "harness/impl/c06_impl.py (calls _escape_string_literal, _to_c_expr, parse, emit; exports the emitter's snippet constants)"],
